@@ -304,6 +304,10 @@ func Apply(ctx context.Context, rc *regclient.RegClient, rSrc ref.Ref, opts ...O
 			}
 			// if added or replaced, and reader not nil, push blob
 			if (dl.mod == added || dl.mod == replaced) && rdr != nil {
+				// an added layer that no step has described anew keeps its media type
+				if dl.newDesc.MediaType == "" {
+					dl.newDesc.MediaType = dl.desc.MediaType
+				}
 				// push the blob and verify the results
 				dNew, err := rc.BlobPut(ctx, rTgt, dl.newDesc, rdr)
 				if err != nil {
